@@ -464,6 +464,9 @@ func txMain(args []string) error {
 					ops = append(ops, txOp{Op: "Queue", N: p})
 				}
 				ops = append(ops, txOp{Op: "Flush", Ctx: "cancelled"})
+				if rng.Intn(2) == 0 {
+					ops = append(ops, txOp{Op: "Flush"}) // the flush is repeated: it terminates what is on the wire
+				}
 				ops = txMessage(rng, ops, 1+rng.Intn(2*body), body, rng.Intn(4))
 				continue
 			}
